@@ -180,23 +180,16 @@ def _populate_container(path: str, container: Any, values: Dict[str, Any]) -> No
         items = sorted(values.items(), key=lambda e: int(e[0]))
         container.extend(item[1] for item in items)
     elif isinstance(container, dict):
-        # pyre-ignore
-        key_to_val: Dict[Union[str, int], Any] = {
-            _decode(k): v for k, v in values.items()
-        }
-        # If a string can represent an integer, make the integer represented by
-        # the string a candidate key in addition.
-        for key in list(values.keys()):
-            key = _decode(key)
-            if _check_int(key):
-                key_to_val[int(key)] = values[key]
-        # NOTE: only keys that appear in both `container` and `key_to_val` will
+        # flatten() derives the path component of a key from str(key), so the
+        # value of a key is the one stored under str(key).
+        str_key_to_val: Dict[str, Any] = {_decode(k): v for k, v in values.items()}
+        # NOTE: only keys that appear in both `container` and `values` will
         # be present in the poplated container. The caller of `inflate()` is
         # responsible for adding a key into the container entry if they wish
         # the key to be present in the inflated container.
         for key in list(container.keys()):
-            if key in key_to_val:
-                container[key] = key_to_val[key]
+            if str(key) in str_key_to_val:
+                container[key] = str_key_to_val[str(key)]
             else:
                 del container[key]
     else:
